@@ -327,3 +327,12 @@ def r12(rr, repo):
     opens = [c for c in q.calls_in(wh) if U(c.func) == 'open']
     src = [n for n in ast.walk(wh) if isinstance(n, ast.NamedExpr) and U(n.target) == 'head'] + [n for n in walk_scope(wh) if isinstance(n, ast.Assign) and U(n.targets[0]) == 'head']
     rr.ob('write_head() writes the file named by self.head', bool(opens) and bool(src) and all(U(n.value) == 'self.head' for n in src), mod, opens[0] if opens else wh, witness=', '.join(U(n)[:40] for n in src), key='head-write-target')
+
+
+@rule('C14.R13', "the position that is saved is the position the reader is at: what read() has not handed out stays IN THE FILE (an unterminated tail is put back by seeking), it is not kept in memory "
+                 "next to a file offset that already lies past it - tell() reports the raw offset, and a restart from it would deliver the tail of the record as a record and never the record "
+                 "(shares C13.R15 and C13.R7)")
+def r13(rr, repo):
+    from .c13 import r15 as c13r15, r7 as c13r7
+    c13r15(rr, repo)
+    c13r7(rr, repo)
